@@ -129,6 +129,37 @@ for nmod, nslots, logins in chosen:
             for public in (True, False):
                 lookup_case(modules, label, public, "lookup")
 
+# ------------------------------------------------------------------ 1b. the key as it is used for signing: private object found, its own public key, token input
+import skrgen
+NOWS = dt.datetime(2026, 1, 1, tzinfo=dt.timezone.utc)
+A_, B_, PUBK = KR[1], KR[0], KR[2]
+CONTENTS = {"empty": [], "noise": S.pair("L1", KR[1]), "pubA": [S.obj("L0", "pub", A_)], "pubB": [S.obj("L0", "pub", B_)], "privB": [S.obj("L0", "priv", B_)],
+            "privB+pubB": S.pair("L0", B_), "privB-noattrs+pubB": [S.obj("L0", "pub", B_), S.obj("L0", "priv", B_, pub_attrs=False)]}
+shapes = [(1, a, b) for a in CONTENTS for b in CONTENTS] + [(2, a, b) for a in CONTENTS for b in CONTENTS]
+shapes = [sh for sh in shapes if "privB" in sh[1] + sh[2]]
+for nmod, a, b in (shapes if TIER == "thorough" else R.sample(shapes, 26)):
+    first = list(CONTENTS[a]) + S.pair("L2", PUBK)
+    modules = [[{"id": 0, "objs": first}, {"id": 1, "objs": list(CONTENTS[b])}]] if nmod == 1 else [[{"id": 0, "objs": first}], [{"id": 0, "objs": list(CONTENTS[b])}]]
+    wt = R.random() < 0.3
+    sc = {"modules": modules, "ksks": {"k0": ceremony.ksk_def(dict(B_, id="L0"), with_tag=wt, with_ds=wt), "kp": ceremony.ksk_def(dict(PUBK, id="L2"))},
+          "schema": {1: {"publish": ["kp"], "sign": ["k0"], "revoke": []}},
+          "request": skrgen.honest_request("lay", NOWS, 1, [[skrgen.zsk(0)]], ksrxml.default_zsk_policy(), sign=True), "strict": "noattrs" not in a + b}
+    r_ = S.run_sign(sc)
+    exp = S.expect(sc)
+    impl_ = r_["impl"]
+    probs = []
+    if exp[0] == "ok" and impl_[0] != "ok":
+        probs.append(f"signing stopped ({impl_[2]}) although one private object carries the label in the first slot that has any, with a readable public key")
+    elif exp[0] == "reject" and impl_[0] == "ok":
+        probs.append(f"signed although: {exp[1]}")
+    elif exp[0] == "ok":
+        probs += S.compare_result(sc, impl_, exp)       # the reported key is the private object's own key and its signature validates (dnspython)
+        probs += S.token_octets_problems(sc, r_)
+    cases.append(r_["coq"])
+    meta.append({"kind": "signing-key-layout", "desc": {"modules": nmod, "first": a, "second": b, "tag_ds_configured": wt, "impl": "ok" if impl_[0] == "ok" else impl_[2],
+                                                        "expected": exp[0] if exp[0] == "ok" else exp[1]}, "spec_ok": not probs, "spec_msg": "; ".join(probs[:3]), "key": None})
+    count("signing-key-layout")
+
 # ------------------------------------------------------------------ 2. octets and mechanism handed to the token
 DI = {8: ("sha256", bytes.fromhex("3031300d060960864801650304020105000420")), 10: ("sha512", bytes.fromhex("3051300d060960864801650304020305000440")),
       5: ("sha1", bytes.fromhex("3021300906052b0e03021a05000414"))}
